@@ -73,9 +73,9 @@ pub fn campaigns(p: Prop) -> Vec<Campaign> {
         Prop::C13 => vec![c("disjoint", MapHist, &[T, T, STR, P, PA, PA, L], 30, (1500, 60_000)), cb("map-big", MapHist, &[T, T, P], 24, (80, 3000)), cw((25, 1000)), cs((300, 12_000))],
         Prop::C14 => vec![c("map-equality", MapEq, &[T, P], 24, (2000, 100_000)), c("set-equality", SetAlg, &[T, P], 24, (1000, 50_000)), c("map-equality-histories", MapHist, &[T, T, P], 30, (600, 30_000)), cb("map-equality-big", MapHist, &[T, P], 24, (100, 4000)), cw((25, 1000)), cs((300, 12_000))],
         Prop::C15 => vec![c("map-clone", MapHist, &[T, T, T, ND, ND, P, ZB, ZK, L, ZD, FT], 40, (2000, 100_000)), c("set-clone", SetHist, &[T, T, T, ND, ND, ZK, ZD], 40, (1000, 50_000)), cb("map-big", MapHist, &[T, ND], 24, (60, 2500)), cw((25, 1000)), cl("map-long-histories", MapHist, &[T, T, P])],
-        Prop::C16 => vec![c("map-bulk", MapHist, &[T, T, P, TG, L, ZD, FT], 12, (2500, 120_000)), c("set-bulk", SetHist, &[T, T, P, TG, ZD, FT], 12, (2000, 100_000)), cb("map-big", MapHist, &[T, P], 8, (60, 2500)), cb("set-big", SetHist, &[T, P], 8, (60, 2500))],
+        Prop::C16 => vec![c("map-bulk", MapHist, &[T, T, P, TG, L, ZD, FT], 12, (2500, 120_000)), c("set-bulk", SetHist, &[T, T, P, TG, ZD, FT], 12, (2000, 100_000)), cb("map-big", MapHist, &[T, P], 8, (60, 2500)), cb("set-big", SetHist, &[T, P], 8, (60, 2500)), cs((200, 8_000))],
         Prop::C17 => vec![c("map-liar", MapHist, &[T], 40, (2500, 150_000)), c("set-liar", SetHist, &[T], 40, (1500, 80_000)), c("alg-liar", SetAlg, &[T], 24, (800, 40_000)), cb("map-big", MapHist, &[T], 30, (80, 3000))],
-        Prop::C18 => vec![c("unchecked-lockstep", MapHist, &[T, T, P, STR, TG, ND, PA, L, ZD, FT], 40, (2500, 150_000)), cb("map-big", MapHist, &[T, T, P], 30, (100, 4000)), cl("map-long-histories", MapHist, &[T, T, P])],
+        Prop::C18 => vec![c("unchecked-lockstep", MapHist, &[T, T, P, STR, TG, ND, PA, L, ZD, FT], 40, (2500, 150_000)), cb("map-big", MapHist, &[T, T, P], 30, (100, 4000)), cl("map-long-histories", MapHist, &[T, T, P]), cs((200, 8_000))],
         Prop::C19 => vec![c("map-fmt", MapHist, &[T, P, P, STR, STR, L, ZK, ZV, ZV, ZB, ZD], 30, (1500, 60_000)), c("set-fmt", SetHist, &[T, P, STR, ZK], 30, (1000, 40_000)), c("alg-fmt", SetAlg, &[P, STR, T], 20, (600, 30_000)), cb("map-big", MapHist, &[P, T], 16, (40, 1500)), cs((300, 12_000))],
         Prop::C20 => vec![],
     }
